@@ -168,6 +168,42 @@ theorem C10_exit_status_abstraction (st : ExitStatus) :
 example : exitEvent (.Signaled 11) = .ProcessReturnedNonZero ∧ exitEvent (.Signaled 9) = .ProcessReturnedNonZero ∧
     exitEvent (.Exited 139) = .ProcessReturnedNonZero ∧ exitEvent (.Exited 0) = .ProcessCompletedSuccessfully := by decide
 
+/-! ### the implicit edges do not depend on what an earlier run recorded
+
+`Gen.depEdge` is regenerated from the arms of `let has_path = match dep { .. }` in `dependencies_to_path`; `buildGraph` uses it
+(`DepRec.reads`).  A recorded item was found through the declared pattern (`rh → gm`) and a recorded item means the record is
+not empty (`rh → ¬ re`). -/
+
+/-- for every kind of dependency: whether a step depends on the producer of an output is decided by the DECLARED path or
+    pattern alone; the items recorded by an earlier run make no difference -/
+theorem C10_edge_independent_of_recorded_state (k : DepKind) (pe gm rh re : Bool)
+    (h1 : rh = true → gm = true) (h2 : rh = true → re = false) :
+    depEdge k pe gm rh re = depEdge k pe gm false true := by
+  cases k <;> cases pe <;> cases gm <;> cases rh <;> cases re <;> simp_all [depEdge]
+
+/-- a declared glob pattern that matches a declared output is an edge, whatever is recorded -/
+theorem C10_glob_match_is_edge (rh re : Bool) :
+    depEdge .Glob false true rh re = true ∧ depEdge .GlobItems false true rh re = true := by
+  cases rh <;> cases re <;> simp [depEdge]
+
+/-- at the level of the graph model: a glob-items dependency with recorded items reads exactly the paths it reads with no
+    recorded items (an output added to the pipeline after a run is not overlooked) -/
+theorem C10_recorded_items_do_not_hide_outputs (g : String) (recorded : List String) (p : String)
+    (hrec : ∀ q ∈ recorded, globMatch g.toList q.toList = true) :
+    (DepRec.globItems g recorded).reads p = (DepRec.globItems g []).reads p := by
+  simp only [DepRec.reads]
+  have h := C10_edge_independent_of_recorded_state .GlobItems false (globMatch g.toList p.toList)
+    (recorded.contains p) recorded.isEmpty
+    (by intro hc; exact hrec p (by simpa using hc))
+    (by intro hc; cases recorded with
+        | nil => simp at hc
+        | cons _ _ => rfl)
+  simpa using h
+
+/-- non-vacuity (the C10-3 shape): items are recorded (`re = false`), the new output is not one of them (`rh = false`), the
+    declared pattern matches it (`gm = true`): it is read -/
+example : depEdge .GlobItems false true false false = true := by decide
+
 /-- the cycle test of the model is exact: Kahn succeeds iff the steps can be ranked so that every dependency has a
     smaller rank than its dependent, i.e. iff the graph has no cycle -/
 theorem C10_acyclic_iff_toposort {n : Nat} {deps : Nat → List Nat} (hwf : WF n deps) :
@@ -229,6 +265,9 @@ example : ¬ Ranked 2 (fun i => if i = 0 then [1] else [0]) := by
 #print axioms C10_pub_monotone
 #print axioms C10_failed_upstream_blocks
 #print axioms C10_broken_forever
+#print axioms C10_edge_independent_of_recorded_state
+#print axioms C10_glob_match_is_edge
+#print axioms C10_recorded_items_do_not_hide_outputs
 #print axioms C10_only_exit_zero_is_done
 #print axioms C10_exit_status_abstraction
 #print axioms C10_acyclic_iff_toposort
